@@ -5,6 +5,7 @@ import SpoxModel.Model.Embed
 import SpoxModel.Model.AttrSite
 import SpoxModel.Model.AttrRef
 import SpoxModel.Model.VarFields
+import SpoxModel.Lemmas.InitTable
 import SpoxModel.Generated.AttrSites
 /-!
 # C10 — constants and attributes are embedded exactly and captured at the call
@@ -1026,5 +1027,95 @@ example : getVars [("A", .one (.var 7)), ("B", .one .none_), ("C", .many [.var 3
     [("A", 7), ("C_0", 3), ("C_1", 1)] := by decide
 
 end Fields
+
+/-! ## Part 10 (round 10): from the embedded array to the tensor in `graph.initializer`
+
+`Argument.update_metadata` / `_Initializer.update_metadata` write `initializers[var] = array`,
+`compile_graph` visits the arguments and then the other own nodes, `_get_initializers_by_name` re-keys the dict by
+the scope's names, `Graph.to_onnx` runs `from_array(arr, name)` over it (`Model/InitTable.lean`; tie H: driver op
+`inits` next to `spox.build` on generated multi-initializer graphs, every run). -/
+section Inits
+open InitTable
+
+/-- **Every initializer reaches the GraphProto exactly once, under its Var's name, in visiting order.** For every
+    graph (any number of arguments with or without default, initializers and other nodes, in any order, arrays
+    shared or not) in which each Var is the output of one node and the scope names those Vars differently, the
+    emitted list is `from_array(array, name var)` of the initializer-bearing nodes - arguments with a default first,
+    then the initializers in the order the build visits them: nothing dropped, nothing twice, nothing else. -/
+theorem initializers_emitted_exact (q : Bool) (name : Nat → String) (args own : List Node)
+    (hv : ((bearing args own).map Prod.fst).Nodup)
+    (hn : ((bearing args own).map (fun p => name p.1)).Nodup) :
+    ∃ ts, emit q name args own = some ts ∧
+      (bearing args own).map (fun p => fromArray q p.2 (name p.1)) = ts.map some := by
+  have hc := collect_eq_bearing args own hv
+  have hb := byName_of_distinct name (bearing args own) hn
+  obtain ⟨ts, hts⟩ := allSome_map_total (fun p : String × Arr => fromArray q p.2 p.1)
+    (fun p => fromArray_total q p.2 p.1) (byName name (collect args own))
+  refine ⟨ts, hts, ?_⟩
+  have := (allSome_eq_some _ _).mp hts
+  rw [hc, hb, List.map_map] at this
+  exact this
+
+/-- … hence, with `roundtrip`: the built graph has as many initializers as the user made, their names are pairwise
+    different, and **each array the user handed over is found under its Var's name, decodes to that array bit for
+    bit (`canon`) and has its element type and shape**; and no tensor is there that the user did not hand over. -/
+theorem initializer_embedded_once (q : Bool) (name : Nat → String) (args own : List Node)
+    (hv : ((bearing args own).map Prod.fst).Nodup)
+    (hn : ((bearing args own).map (fun p => name p.1)).Nodup)
+    (hwf : ∀ p ∈ bearing args own, p.2.WF) :
+    ∃ ts, emit q name args own = some ts ∧ ts.length = (bearing args own).length ∧
+      ts.map (·.name) = (bearing args own).map (fun p => name p.1) ∧
+      (∀ p ∈ bearing args own, ∃ t ∈ ts, t.name = name p.1 ∧ toArray q t = some (canon q p.2) ∧
+        typeOfProto t = some (p.2.dtype, p.2.shape)) ∧
+      (∀ t ∈ ts, ∃ p ∈ bearing args own, t.name = name p.1 ∧ toArray q t = some (canon q p.2)) := by
+  obtain ⟨ts, hts, hmap⟩ := initializers_emitted_exact q name args own hv hn
+  have hnames := map_of_map_some (fun p : Nat × Arr => fromArray q p.2 (name p.1)) (fun p => name p.1)
+    (·.name) (fun p t h => fromArray_name q p.2 (name p.1) t h) _ _ hmap
+  refine ⟨ts, hts, ?_, hnames, ?_, ?_⟩
+  · have := congrArg List.length hmap; simpa using this.symm
+  · intro p hp
+    obtain ⟨t, ht, hpt⟩ := mem_of_map_some _ _ _ hmap p hp
+    obtain ⟨t', h1, h2⟩ := roundtrip q p.2 (name p.1) (hwf p hp)
+    have : t' = t := Option.some.inj (h1.symm.trans hpt)
+    subst this
+    exact ⟨t', ht, fromArray_name q p.2 _ t' hpt, h2, const_type_exact q p.2 _ t' hpt⟩
+  · intro t ht
+    obtain ⟨p, hp, hpt⟩ := mem_of_map_some' _ _ _ hmap t ht
+    obtain ⟨t', h1, h2⟩ := roundtrip q p.2 (name p.1) (hwf p hp)
+    have : t' = t := Option.some.inj (h1.symm.trans hpt)
+    subst this
+    exact ⟨p, hp, fromArray_name q p.2 _ t' hpt, h2⟩
+
+/-- Without any hypothesis on the graph or on the naming: the emitted initializers never carry a name twice (a
+    GraphProto with two initializers of one name is invalid ONNX). -/
+theorem emitted_names_nodup (q : Bool) (name : Nat → String) (args own : List Node) (ts : List TProto)
+    (h : emit q name args own = some ts) : (ts.map (·.name)).Nodup := by
+  have hm := (allSome_eq_some _ _).mp h
+  have := map_of_map_some (fun p : String × Arr => fromArray q p.2 p.1) (fun p => p.1) (·.name)
+    (fun p t h => fromArray_name q p.2 p.1 t h) _ _ hm
+  rw [this]
+  exact byName_keys_nodup name _
+
+/-- What the value of a Var's initializer is when a Var is written more than once (it is not, in spox: a Var has
+    one producing node): the last write, in the place of the first. -/
+theorem collect_last_write (d : List (Nat × Arr)) (v : Nat) (a : Arr) :
+    dget (Node.update d (.init v a)) v = some a := by
+  simp [Node.update, Node.entry, dget_dset]
+
+/-- The naming hypothesis is necessary: were two initializer Vars given one name, one array would be lost. -/
+theorem name_clash_loses_one :
+    (emit true (fun _ => "x") [] [.init 0 (ex .int8 [1] [1]), .init 1 (ex .int8 [1] [2])]).map
+      (·.map (·.int32Data)) = some [[2]] := by decide
+
+/-- Non-vacuity: an argument with a default, one without, two initializers (one array used twice) around another node:
+    defaults first, then the initializers in visiting order, under their names; the Argument among the own nodes is
+    not visited twice. -/
+example :
+    (emit true (fun v => s!"v{v}") [.arg 0 (some (ex .uint8 [] [7])), .arg 1 none]
+        [.arg 0 (some (ex .uint8 [] [7])), .init 5 (ex .int8 [2] [255, 1]), .other, .init 3 (ex .int8 [2] [255, 1])]).map
+      (·.map (fun t => (t.name, t.dims, t.int32Data))) =
+    some [("v0", [], [7]), ("v5", [2], [-1, 1]), ("v3", [2], [-1, 1])] := by decide +kernel
+
+end Inits
 
 end C10
